@@ -512,7 +512,7 @@ def Cell.WF (c : Cell α) : Prop :=
   ∀ kv ∈ c.alloc, validIdent kv.1 = true ∧ 0 ≤ kv.2.val ∧ kv.2.val ≤ 1
 
 theorem parseCell_toY (c : Cell α) (h : c.WF) : parseCell c.toY = .ok c := by
-  obtain ⟨rect, alloc, depth⟩ := c
+  obtain ⟨rect, alloc, depth, fixed⟩ := c
   obtain ⟨hg, hr, hnd, ha⟩ := h
   simp only at hg hr hnd ha
   have hrect : parseCellRect rect.toY = .ok rect := by
@@ -524,12 +524,16 @@ theorem parseCell_toY (c : Cell α) (h : c.WF) : parseCell c.toY = .ok c := by
       simp [parseEntry, YVal.str?, h1, h2, h3])
     simpa using this
   have hnd' := nodupB_of_nodup _ hnd
-  by_cases hd : depth > 0
-  · have : (0 : Int) ≤ (depth : Int) := by omega
-    simp [Cell.toY, parseCell, hd, parseDepth, this, hrect, hent, hnd']
-  · have : depth = 0 := by omega
-    subst this
-    simp [Cell.toY, parseCell, hrect, hent, hnd']
+  have h0 : (0 : Int) ≤ (depth : Int) := by omega
+  cases fixed with
+  | true =>
+    simp [Cell.toY, parseCell, parseDepth, parseMark, h0, hrect, hent, hnd']
+  | false =>
+    by_cases hd : depth > 0
+    · simp [Cell.toY, parseCell, hd, parseDepth, h0, hrect, hent, hnd']
+    · have : depth = 0 := by omega
+      subst this
+      simp [Cell.toY, parseCell, hrect, hent, hnd']
 
 theorem readAlloc_writeAlloc (cs : List (Cell α)) (h : ∀ c ∈ cs, c.WF) : readAlloc (writeAlloc cs).1 = .ok cs := by
   have := amapE_map_ok (parseCell (α := α)) Cell.toY id cs (fun c hc => parseCell_toY c (h c hc))
@@ -917,6 +921,126 @@ theorem fsShape_ok (f : FsInst α) (h : f.pins ≠ []) : ∃ sx sy, fsShape f = 
 
 theorem fsShape_nopins (f : FsInst α) (h : f.pins = []) : fsShape f = .error .valueError := by
   simp [fsShape, h, maxOf?]
+
+theorem le_pyMax_left (a b : α) : a ≤ pyMax a b := by
+  unfold pyMax; split
+  · exact le_of_lt ‹_›
+  · exact le_refl _
+
+theorem le_pyMax_right (a b : α) : b ≤ pyMax a b := by
+  unfold pyMax; split
+  · exact le_refl _
+  · exact not_lt.mp ‹_›
+
+theorem le_foldl_pyMax (l : List α) (init x : α) (h : x ≤ init ∨ x ∈ l) : x ≤ l.foldl pyMax init := by
+  induction l generalizing init with
+  | nil =>
+    rcases h with h | h
+    · exact h
+    · cases h
+  | cons y ys ih =>
+    rw [List.foldl_cons]
+    apply ih
+    rcases h with h | h
+    · exact Or.inl (le_trans h (le_pyMax_left _ _))
+    · rcases List.mem_cons.mp h with rfl | h
+      · exact Or.inl (le_pyMax_right _ _)
+      · exact Or.inr h
+
+theorem maxOf?_ge (l : List α) (m : α) (h : maxOf? l = some m) : ∀ x ∈ l, x ≤ m := by
+  cases l with
+  | nil => cases h
+  | cons y ys =>
+    simp only [maxOf?, Option.some.injEq] at h
+    subst h
+    intro x hx
+    rcases List.mem_cons.mp hx with rfl | hx
+    · exact le_foldl_pyMax _ _ _ (Or.inl (le_refl _))
+    · exact le_foldl_pyMax _ _ _ (Or.inr hx)
+
+/-- the die `_parse_modules` derives is spanned by the pins: every pin lies in `[0, sx] × [0, sy]` (upper bounds). -/
+theorem fsShape_bounds (f : FsInst α) (sx sy : α) (h : fsShape f = .ok (sx, sy)) :
+    ∀ p ∈ f.pins, p.1 ≤ sx ∧ p.2 ≤ sy := by
+  unfold fsShape at h
+  cases hx : maxOf? (f.pins.map (·.1)) with
+  | none => rw [hx] at h; cases h
+  | some mx =>
+    cases hy : maxOf? (f.pins.map (·.2)) with
+    | none => rw [hx, hy] at h; cases h
+    | some my =>
+      rw [hx, hy] at h
+      simp only [Except.ok.injEq, Prod.mk.injEq] at h
+      obtain ⟨rfl, rfl⟩ := h
+      intro p hp
+      exact ⟨maxOf?_ge _ _ hx p.1 (List.mem_map.mpr ⟨p, hp, rfl⟩), maxOf?_ge _ _ hy p.2 (List.mem_map.mpr ⟨p, hp, rfl⟩)⟩
+
+/-! #### from the raw arrays to a well-formed instance -/
+
+/-- raw FloorSet arrays the converter is meant for: what `__init__` checks (`valid`, `dens`), at least one pin, a proper
+    decomposition of every block (non-empty, proper rectangles in the positive quadrant, no overlap for hard / fixed
+    blocks — what `strop_decomposition` delivers for a single-trunk orthogon, property C15), positive area for soft blocks,
+    connections between existing blocks / pins, and a density whose normalisation does not divide by zero. -/
+structure FsRaw.WF (eps εA : α) (sqrt : α → α) (r : FsRaw α) : Prop where
+  eps_pos : 0 < eps
+  valid : fsValidate r = true
+  dens : ∀ x, r.density = some x → 0 ≤ x ∧ x ≤ 1
+  pins_ne : r.pins ≠ []
+  blocks : ∀ i, i < r.areaBlocks.length →
+    r.decomp.getD i [] ≠ [] ∧ (∀ q ∈ r.decomp.getD i [], Rect4Ok q) ∧
+    (fsKindOf (r.cons.getD i []) ≠ 1 → fsKindOf (r.cons.getD i []) ≠ 2 → 0 < r.areaBlocks.getD i 0) ∧
+    (fsKindOf (r.cons.getD i []) = 2 → noOverlap εA (((r.decomp.getD i []).map f4).map (nrect true true)) = true) ∧
+    (fsKindOf (r.cons.getD i []) = 1 → noOverlap εA (((r.decomp.getD i []).map f4).map (nrect false true)) = true)
+  b2b : ∀ e ∈ r.b2b, e.1 < r.areaBlocks.length ∧ e.2.1 < r.areaBlocks.length
+  p2b : ∀ e ∈ r.p2b, e.1 < r.pins.length ∧ e.2.1 < r.areaBlocks.length
+  alpha_ok : ∀ x, r.density = some x → x ≠ 0 → ∃ a, fsAlpha sqrt r x = .ok a
+
+theorem fsValidate_pins (r : FsRaw α) (h : fsValidate r = true) : ∀ p ∈ r.pins, 0 ≤ p.1 ∧ 0 ≤ p.2 := by
+  intro p hp
+  simp only [fsValidate, Bool.and_eq_true, List.all_eq_true] at h
+  have := h.1.1.2 p hp
+  simp only [Bool.and_eq_true, Bool.not_eq_true', decide_eq_false_iff_not, not_lt, nl_zero_eq] at this
+  exact this
+
+/-- **the constructor on well-formed raw arrays returns a well-formed instance**: the blocks are those of
+    `_parse_modules` (kinds from the placement constraints), pins and connections are the arrays', the normalisation factor
+    is 1 without a density and `density / max_b (weight_sum b / perimeter b)` with one. -/
+theorem fsOfRaw_ok (eps εA : α) (sqrt : α → α) (r : FsRaw α) (h : FsRaw.WF eps εA sqrt r) :
+    ∃ f, fsOfRaw sqrt r = .ok f ∧ FsInst.WF eps εA f ∧ f.blocks = fsBlocksOf r ∧ f.pins = r.pins ∧
+      f.terminalsAsModules = r.terminalsAsModules ∧ f.b2b = r.b2b ∧ f.p2b = r.p2b ∧
+      ((r.density = none ∨ r.density = some 0) → f.alpha = 1) ∧
+      (∀ x, r.density = some x → x ≠ 0 → fsAlpha sqrt r x = .ok f.alpha) := by
+  have hlen : (fsBlocksOf r).length = r.areaBlocks.length := by simp [fsBlocksOf]
+  have hwf : ∀ a : α, FsInst.WF eps εA
+      { blocks := fsBlocksOf r, pins := r.pins, terminalsAsModules := r.terminalsAsModules, alpha := a,
+        b2b := r.b2b, p2b := r.p2b } := by
+    intro a
+    refine ⟨h.eps_pos, ?_, fsValidate_pins r h.valid, h.pins_ne, ?_, ?_⟩
+    · intro b hb
+      simp only [fsBlocksOf, List.mem_map, List.mem_range] at hb
+      obtain ⟨i, hi, rfl⟩ := hb
+      have := h.blocks i hi
+      simpa [nl_zero_eq] using this
+    · intro e he; simpa [hlen] using h.b2b e he
+    · intro e he; simpa [hlen] using h.p2b e he
+  obtain ⟨sx, sy, hs⟩ := fsShape_ok (FsInst.mk (fsBlocksOf r) r.pins r.terminalsAsModules (1 : α) r.b2b r.p2b) h.pins_ne
+  have hone : (NL.one : α) = 1 := by simp [NL.one]
+  cases hd : r.density with
+  | none =>
+    refine ⟨_, ?_, hwf 1, rfl, rfl, rfl, rfl, rfl, fun _ => rfl, fun x hx => by cases hx⟩
+    simp [fsOfRaw, h.valid, hd, fsDensity, hone, hs]
+  | some x =>
+    obtain ⟨hx0, hx1⟩ := h.dens x hd
+    by_cases hz : x = 0
+    · refine ⟨_, ?_, hwf 1, rfl, rfl, rfl, rfl, rfl, fun _ => rfl, fun y hy hy0 => ?_⟩
+      · simp [fsOfRaw, h.valid, hd, fsDensity, hz, hone, hs, nl_zero_eq]
+      · cases hy; exact absurd hz hy0
+    · obtain ⟨a, haa⟩ := h.alpha_ok x hd hz
+      refine ⟨_, ?_, hwf a, rfl, rfl, rfl, rfl, rfl, fun hc => ?_, fun y hy _ => ?_⟩
+      · simp [fsOfRaw, h.valid, hd, fsDensity, hz, hx0, hx1, hone, hs, nl_zero_eq, haa]
+      · rcases hc with hc | hc
+        · cases hc
+        · cases hc; exact absurd rfl hz
+      · cases hy; exact haa
 
 theorem floorset_parseNetlist (stog : List (NRect α) → List (NRect α)) (εA eps sx sy : α) (f : FsInst α)
     (h : FsInst.WF eps εA f) :
